@@ -328,7 +328,7 @@ class Engine(object):
             return VInt(IntV(obj))
         if isinstance(obj, str):
             return VStr(StrV(obj))
-        if isinstance(obj, tuple) and all(isinstance(x, (str, int, bool, type(None), tuple)) for x in obj):
+        if type(obj) is tuple and all(isinstance(x, (str, int, bool, type(None), tuple)) for x in obj):
             return VTuple([self.lift(x, st) for x in obj])
         if isinstance(obj, list) and st is not None and all(isinstance(x, (str, int, bool, type(None), tuple)) for x in obj):
             return st.alloc(HPyList([self.lift(x, st) for x in obj]))
@@ -1455,9 +1455,27 @@ class Engine(object):
                 return [(v.attrs[name], st)]
             if name == '__class__':
                 return [(VPy(v.cls), st)]
+            # attributes the models do not set: stable per (state, exception, attribute)
+            cache = dict(st.ghost.get('__excattrs__', {}))
+            key = (id(v), name)
+            if key in cache:
+                return [(cache[key], st)]
+
+            def remember(val, s):
+                c2 = dict(s.ghost.get('__excattrs__', {}))
+                c2[key] = val
+                s.ghost['__excattrs__'] = c2
+                return (val, s)
             if name == 'orig_ex':
-                # ExtractGotReprException.orig_ex: the exception the repr raised (some Exception instance)
-                return [(VExc(Exception, {}, tag='orig_ex'), st)]
+                # the wrapped original exception: some Exception instance (a SyntaxError or not)
+                s2 = st.copy()
+                return [remember(VExc(Exception, {}, tag='orig_ex'), st), remember(VExc(SyntaxError, {}, tag='orig_ex'), s2)]
+            if name in ('string', 'msg'):
+                return [remember(VStr(self.ctx.fresh('exc_' + name, STR)), st)]
+            if name == 'text':
+                return [remember(VOptSym(self.ctx.fresh('exc_text_isnone', BOOL), VStr(self.ctx.fresh('exc_text', STR))), st)]
+            if name in ('offset', 'lineno'):
+                return [remember(VOptSym(self.ctx.fresh('exc_%s_isnone' % name, BOOL), VInt(self.ctx.fresh('exc_' + name, INT))), st)]
             raise Undecided('attribute %s of exception' % name, node)
         if isinstance(v, VNone):
             return self._safe_result(FALSE, NONE, AttributeError, st, node)
